@@ -194,6 +194,8 @@ def seeded_for(pid):
     for d in sorted(glob.glob(os.path.join(VERIF, 'seeded', '*'))):
         mp = os.path.join(d, 'meta.json')
         pp = os.path.join(d, 'patch.diff')
+        if os.path.exists(os.path.join(d, 'patch.rebased.diff')):
+            pp = os.path.join(d, 'patch.rebased.diff')      # the same change re-made on top of later fix commits
         if not (os.path.exists(mp) and os.path.exists(pp)):
             continue
         try:
@@ -208,10 +210,31 @@ def seeded_for(pid):
     return out
 
 
+def benign_patches():
+    """confirmed behaviour-preserving refactorings written by independent sub-agents (/verif/benign): [(name, patch, may_be_undecided_for)]"""
+    out = []
+    for d in sorted(glob.glob(os.path.join(VERIF, 'benign', '*'))):
+        pp = os.path.join(d, 'patch.diff')
+        mp = os.path.join(d, 'meta.json')
+        if not os.path.exists(pp):
+            continue
+        und = set()
+        try:
+            meta = json.load(open(mp))
+            exp = meta.get('expected', '')
+            if exp.startswith('undecided'):
+                import re as _re
+                und = set(_re.findall(r'C\d\d', exp))
+        except Exception:
+            pass
+        out.append((os.path.basename(d), pp, und))
+    return out
+
+
 def run_battery(pid, root):
     """returns dict(twins=[...], mutants=[...], noisy=[...], missed=[...])"""
     import concurrent.futures as cf
-    res = dict(twins=[], mutants=[], noisy=[], missed=[], undecided=[], skipped=[])
+    res = dict(twins=[], mutants=[], noisy=[], missed=[], undecided=[], skipped=[], benign=[])
 
     def twin_job(kind):
         tmp = make_twin(root, kind)
@@ -232,7 +255,20 @@ def run_battery(pid, root):
             shutil.rmtree(tmp, ignore_errors=True)
         return ('mutant', name, rc, lines)
 
-    jobs = [(twin_job, k) for k in TWINS] + [(mutant_job, it) for it in seeded_for(pid)]
+    def benign_job(item):
+        name, patch, und = item
+        tmp = make_mutant(root, patch)
+        if tmp is None:
+            return ('skip', name, None, [])
+        try:
+            rc, lines = run_check(pid, tmp)
+        finally:
+            shutil.rmtree(tmp, ignore_errors=True)
+        if rc == 2 and pid in und:
+            rc = 0      # recorded as undecidable for this refactoring (never a VIOLATION)
+        return ('benign', name, rc, lines)
+
+    jobs = [(twin_job, k) for k in TWINS] + [(mutant_job, it) for it in seeded_for(pid)] + [(benign_job, it) for it in benign_patches()]
     with cf.ThreadPoolExecutor(max_workers=min(16, max(1, len(jobs)))) as ex:
         for (what, name, rc, lines) in ex.map(lambda j: j[0](j[1]), jobs):
             if what == 'twin':
@@ -241,6 +277,12 @@ def run_battery(pid, root):
                     res['noisy'].append(name)
                 elif rc != 0:
                     res['undecided'].append(name)
+            elif what == 'benign':
+                res['benign'].append(dict(name=name, rc=rc))
+                if rc == 1:
+                    res['noisy'].append('benign:' + name)
+                elif rc != 0:
+                    res['undecided'].append('benign:' + name)
             elif what == 'skip':
                 res['skipped'].append(name)
             else:
